@@ -118,6 +118,19 @@ func TestC04(t *testing.T) {
 			c.Ev.MarkExhaustive(fmt.Sprintf("%d value producers x 9 ways of crossing a call, each printed, printed inside an array and compared with the original", len(vals)))
 		})
 
+		c.Sub("scale", func(s *Sub) {
+			if c.Shard != 0 {
+				return
+			}
+			c.stepOverride = 40000000
+			defer func() { c.stepOverride = 0 }()
+			for _, n := range c.scaleSizes([]int{500, 2000}, []int{5000, 20000}) {
+				c.c04Program(s, "scale", scaleFunctions(n), true, "scale-functions")
+			}
+			for _, n := range c.scaleSizes([]int{100, 300}, []int{1000, 5000}) {
+				c.c04Program(s, "scale", scaleClosures(n), true, "scale-closures")
+			}
+		})
 		c.Sub("recursion", func(s *Sub) {
 			if c.Shard != 0 {
 				return
